@@ -36,3 +36,15 @@ contract(PP + '.resolve_symbols', props=['C09', 'C14'], params={'resolved_symbol
                               ' line_str == entry(line_str))',
                               'found_symbols is entry(found_symbols)', 'symbols_replaced is entry(symbols_replaced)'])})
 declare_const('SYMBOL_PATTERN', 'str')
+
+
+# ---- a #define line: the symbol it introduces was not defined before (a second definition is rejected, whatever its text) --
+contract('bespokeasm.assembler.line_object.preprocessor_line.define_symbol:DefineSymbolLine.__init__', name='define-line',
+         props=['C09'], params={'memzone': 'MemoryZone?'},
+         # (group 1 -- the symbol name -- is not optional in the pattern: trusted fact about that regular expression)
+         regex_facts={'DefineSymbolLine.PATTERN_DEFINE_SYMBOL': [1]},
+         may_raise={'SystemExit': 'True'},
+         ensures=['forall(lambda s: implies(old(s in preprocessor._symbols), self._symbol._name != s), types={"s": "str"})',
+                  'self._symbol._name in preprocessor._symbols',
+                  'mapping(preprocessor._symbols)[self._symbol._name] is self._symbol'],
+         modifies=['preprocessor._symbols[*]'], allocates=True, no_frame_check=True)
